@@ -321,6 +321,12 @@ static long eval_const_expr(Token **rest, Token *tok) {
   // Convert pp-numbers to regular numbers
   convert_pp_tokens(expr);
 
+  // In #if all signed integer types act as intmax_t and all unsigned
+  // ones as uintmax_t (C11 6.10.1p4).
+  for (Token *t = expr; t->kind != TK_EOF; t = t->next)
+    if (t->kind == TK_NUM && is_integer(t->ty))
+      t->ty = t->ty->is_unsigned ? ty_ulong : ty_long;
+
   Token *rest2;
   long val = const_expr(&rest2, expr);
   if (rest2->kind != TK_EOF)
